@@ -81,8 +81,8 @@ def _logs(run, state):
 
 def compare(run, state, fields=None):
     """Public projection and event log of the implementation against the specification state."""
-    want = core_real.project_model(state['S'])
-    got = run.projection()
+    want = core_real.norm(core_real.project_model(state['S']))
+    got = core_real.norm(run.projection())
     diffs = []
     for k in want:
         if fields is not None and k not in fields:
